@@ -719,3 +719,38 @@ def every_cycle_calls(loop, pred):
     node satisfying pred"""
     body = loop["body"]
     return all(c for ex, c in flow(body, pred) if ex in ("fall", "continue"))
+
+
+def matrix_roles_solver(f):
+    """In a solver function: ids bound by `Expression::Matrix(columns, rows)` patterns -> (set of columns ids, set of rows ids),
+    and the ids of variables bound by `for row in rows`."""
+    cols, rows = set(), set()
+    for pat in all_patterns(f.body):
+        for alt in _alts(pat):
+            for pp in _walk_pat(alt):
+                v = variant_of(pp)
+                if v and v[0] == "Expression" and v[1] == "Matrix":
+                    for i, acc in ((0, cols), (1, rows)):
+                        from facts import subpat
+                        b = strip_ref(subpat(pp, i))
+                        if b is not None and b.get("k") == "Bind":
+                            acc.add(b["id"])
+    rowvars = set()
+    for n in walk(f.body):
+        if n.get("k") == "For":
+            src, pat, idx = loop_over(n)
+            if src in rows and idx is None and strip_ref(pat).get("k") == "Bind":
+                rowvars.add(strip_ref(pat)["id"])
+    return cols, rows, rowvars
+
+
+def row_cell_loops(f):
+    """`for (i, cell) in row.iter().enumerate()` loops over a matrix row -> [(loop node, index id)]"""
+    _, _, rowvars = matrix_roles_solver(f)
+    out = []
+    for n in walk(f.body):
+        if n.get("k") == "For":
+            src, pat, idx = loop_over(n)
+            if src in rowvars and idx is not None:
+                out.append((n, idx))
+    return out
